@@ -897,12 +897,18 @@ func genC16(c *Ctx) {
 			}
 		}
 	}
-	// --- the table after everything above (the 04 branch appends into BaseX's spare capacity) ---
+	// --- the table after everything above (the 04 branch appends to BaseX: visible values and len/cap must be unchanged) ---
 	after := wel.VerifCurveTable()
 	c.Emit("table", SL{}, tableSx(after))
 	for i, r := range after {
-		fmt.Fprintf(os.Stderr, "NOTE %s BaseX len=%d cap=%d: bytes len..len+len(BaseY) of its backing array %s BaseY after the run (before: %s); A %v B %v BaseY %v Seed %v\n",
-			r.Name, r.LenCap[2][0], r.LenCap[2][1], eqWord(spareHasY(r)), eqWord(spareHasY(before[i])), r.LenCap[0], r.LenCap[1], r.LenCap[3], r.LenCap[4])
+		l, cp := r.LenCap[2][0], r.LenCap[2][1]
+		if cp-l < len(r.BaseY) {
+			fmt.Fprintf(os.Stderr, "NOTE %s BaseX len=%d cap=%d (A %v B %v BaseY %v Seed %v): no room for BaseY, so append(a.BaseX, a.BaseY...) in the 04 branch allocates a new array and never writes into the table\n",
+				r.Name, l, cp, r.LenCap[0], r.LenCap[1], r.LenCap[3], r.LenCap[4])
+		} else {
+			fmt.Fprintf(os.Stderr, "NOTE %s BaseX len=%d cap=%d (A %v B %v BaseY %v Seed %v): append(a.BaseX, a.BaseY...) writes BaseY into the spare capacity of the table's array; those bytes %s BaseY after the run (before: %s); no slice of the table can see them\n",
+				r.Name, l, cp, r.LenCap[0], r.LenCap[1], r.LenCap[3], r.LenCap[4], eqWord(spareHasY(r)), eqWord(spareHasY(before[i])))
+		}
 	}
 }
 
